@@ -68,56 +68,7 @@ def run(ctx, w):
         ctx.missing_anchor("Q3", "buffer resize routine")
         return
 
-    # ---- Q1 ------------------------------------------------------------------------------------
-    ctx.rule("Q1", "the routine that cuts trailing default cells off a row is applied only under `row.wrapped == false` of the row it is applied to (or of the row it was split from)")
-    line_fns = {fn: fo for fn, fo in w.facts.fns.items() if (fo.get("impl_self") or {}).get("adt") == S.line_ty and "impl_trait" not in fo and fn in w.bodies}
-    counters = [fn for fn, fo in line_fns.items() if (fo.get("output") or {}).get("s") == "usize" and len(fo["inputs"]) == 1 and "cell::Cell::is_default" in E.reachable_fns([fn])
-                or any(c == "cell::Cell::is_default" for (pt, c, u) in []) ]
-    # closures are not in reachable_fns: look at closure creations
-    counters = []
-    for fn, fo in line_fns.items():
-        if (fo.get("output") or {}).get("s") not in ("usize", "bool") or len(fo["inputs"]) != 1:
-            continue
-        reach = set(E.reachable_fns([fn]))
-        for (pt, cdef, u) in E.closure_creations.get(fn, []):
-            reach |= E.reachable_fns([cdef])
-        if "cell::Cell::is_default" in reach:
-            counters.append(fn)
-    trims = [fn for fn, fo in line_fns.items() if len(fo["inputs"]) == 1 and fo["inputs"][0].get("ref") == "mut"
-             and any(cs.callee.endswith("::truncate") for cs in E.call_sites(fn)) and any(cs.callee in counters for cs in E.call_sites(fn))]
-    if not counters or len(trims) != 1:
-        ctx.missing_anchor("Q1", "blank counter / trim routine of Line", "(counters=%s trims=%s)" % (counters, trims))
-    else:
-        trim = trims[0]
-        # only the re-layout machinery is constrained (the dump's cut-off and the text trimming are separate concerns of C09/C11)
-        core = set(E.reachable_fns([rf]))
-        for fn2, fo2 in w.facts.fns.items():
-            if fo2.get("impl_trait", "").endswith("Iterator") and fn2 in w.bodies and (fo2.get("impl_self") or {}).get("s", "").startswith("buffer::"):
-                core |= set(E.reachable_fns([fn2]))
-        n = 0
-        for target in [trim] + counters:
-            for cs in E.callers_of(target):
-                if cs.term is None or cs.body == trim or cs.body not in core or cs.body in counters:
-                    continue
-                f = cs.body
-                T = w.terms(f)
-                recv = WD.strip_names(T.operand(cs.term["args"][0], cs.point))
-                while recv[0] in ("ref", "deref", "obj"):
-                    recv = recv[2] if recv[0] == "ref" else recv[1]
-                # the wrap flag of the row concerned
-                if recv[0] == "load":
-                    flag = ("load", recv[1] + (S.wrap_field,))
-                elif recv[0] == "adt" and recv[1] == S.line_ty:
-                    flag = dict(zip(recv[3], recv[4])).get(S.wrap_field)
-                else:
-                    flag = None
-                gs = [(WD.strip_names(c), v) for c, v in w.guards_of(f, cs.point[0])]
-                ok = flag is not None and any(c == flag and v is False for c, v in gs)
-                n += 1
-                ctx.check(ok, "Q1", "%s:%s" % (f, shared.site_key(w, f, cs.point)),
-                          "%s trims/counts trailing blanks of %s without having established that this row is not soft-wrapped (guards: %s): blanks inside a logical line are content and would be lost on reflow" %
-                          (f, w.tstr(f, recv)[:60], [(w.tstr(f, c), v) for c, v in gs]), loc=w.site_loc(cs), sample={"fn": f, "row": w.tstr(f, recv)[:60], "guards": [(w.tstr(f, c), v) for c, v in gs]})
-        ctx.floor("Q1", 3, "trim sites")
+    q1_rules(ctx, w, S, R, rf)
 
     # ---- Q2 -------------------------------------------------------------------------------------------
     from rules import c01
@@ -154,6 +105,11 @@ def run(ctx, w):
     from rules import c02
     c02.relayout_clears_wrap(ctx, w, S, R, "Q4")
     c02.row_units(ctx, w, S, R, "Q6")
+    # the translated cursor must reach the terminal unchanged, the resize entry must not place the cursor itself,
+    # and the text above the view must survive the gc that follows every resize (primary keeps the configured limit)
+    c02.relayout_rules(ctx, w, S, R)
+    from rules import c06 as _c06
+    _c06.role_limits(ctx, w, S, R, "Q7")
     from rules import c01 as _c01
     _c01.loop_index(ctx, w, S, _c01.api_reach(w))
     must = w.mustwrite.must(rf)
@@ -219,3 +175,81 @@ def cursor_remap(ctx, w, S, rf, lg, rl):
                       (rf, comp, w.tstr(rf, t)[:80], [(w.tstr(rf, c)[:50], v) for c, v in gs][-2:], "column" if comp == 0 else "row (as usize) when it is >= 0, and 0 (view re-anchored) when it is negative"),
                       loc=w.stmt_loc(rf, p), sample={"component": comp, "value": w.tstr(rf, t)[:80]})
     ctx.floor("Q5", 5, "cursor re-mapping obligations")
+
+
+def q1_rules(ctx, w, S, R, rf):
+    """Q1 (+Q1b): what the re-wrap may drop from the end of a row, and when."""
+    E = w.E
+    # ---- Q1 ------------------------------------------------------------------------------------
+    ctx.rule("Q1", "the routine that cuts trailing default cells off a row is applied only under `row.wrapped == false` of the row it is applied to (or of the row it was split from)")
+    line_fns = {fn: fo for fn, fo in w.facts.fns.items() if (fo.get("impl_self") or {}).get("adt") == S.line_ty and "impl_trait" not in fo and fn in w.bodies}
+    counters = [fn for fn, fo in line_fns.items() if (fo.get("output") or {}).get("s") == "usize" and len(fo["inputs"]) == 1 and "cell::Cell::is_default" in E.reachable_fns([fn])
+                or any(c == "cell::Cell::is_default" for (pt, c, u) in []) ]
+    # closures are not in reachable_fns: look at closure creations
+    counters = []
+    for fn, fo in line_fns.items():
+        if (fo.get("output") or {}).get("s") not in ("usize", "bool") or len(fo["inputs"]) != 1:
+            continue
+        reach = set(E.reachable_fns([fn]))
+        for (pt, cdef, u) in E.closure_creations.get(fn, []):
+            reach |= E.reachable_fns([cdef])
+        if "cell::Cell::is_default" in reach:
+            counters.append(fn)
+    trims = [fn for fn, fo in line_fns.items() if len(fo["inputs"]) == 1 and fo["inputs"][0].get("ref") == "mut"
+             and any(cs.callee.endswith("::truncate") for cs in E.call_sites(fn)) and any(cs.callee in counters for cs in E.call_sites(fn))]
+    if not counters or len(trims) != 1:
+        ctx.missing_anchor("Q1", "blank counter / trim routine of Line", "(counters=%s trims=%s)" % (counters, trims))
+    else:
+        trim = trims[0]
+        # only the re-layout machinery is constrained (the dump's cut-off and the text trimming are separate concerns of C09/C11)
+        core = set(E.reachable_fns([rf]))
+        for fn2, fo2 in w.facts.fns.items():
+            if fo2.get("impl_trait", "").endswith("Iterator") and fn2 in w.bodies and (fo2.get("impl_self") or {}).get("s", "").startswith("buffer::"):
+                core |= set(E.reachable_fns([fn2]))
+        n = 0
+        for target in [trim] + counters:
+            for cs in E.callers_of(target):
+                if cs.term is None or cs.body == trim or cs.body not in core or cs.body in counters:
+                    continue
+                f = cs.body
+                T = w.terms(f)
+                recv = WD.strip_names(T.operand(cs.term["args"][0], cs.point))
+                while recv[0] in ("ref", "deref", "obj"):
+                    recv = recv[2] if recv[0] == "ref" else recv[1]
+                # the wrap flag of the row concerned
+                if recv[0] == "load":
+                    flag = ("load", recv[1] + (S.wrap_field,))
+                elif recv[0] == "adt" and recv[1] == S.line_ty:
+                    flag = dict(zip(recv[3], recv[4])).get(S.wrap_field)
+                else:
+                    flag = None
+                gs = [(WD.strip_names(c), v) for c, v in w.guards_of(f, cs.point[0])]
+                ok = flag is not None and any(c == flag and v is False for c, v in gs)
+                n += 1
+                ctx.check(ok, "Q1", "%s:%s" % (f, shared.site_key(w, f, cs.point)),
+                          "%s trims/counts trailing blanks of %s without having established that this row is not soft-wrapped (guards: %s): blanks inside a logical line are content and would be lost on reflow" %
+                          (f, w.tstr(f, recv)[:60], [(w.tstr(f, c), v) for c, v in gs]), loc=w.site_loc(cs), sample={"fn": f, "row": w.tstr(f, recv)[:60], "guards": [(w.tstr(f, c), v) for c, v in gs]})
+        ctx.floor("Q1", 3, "trim sites")
+
+    # ---- Q1b: WHICH cells count as droppable: exactly the default cells (blank character AND default pen) ----
+    ctx.rule("Q1b", "the cells a re-wrap may drop from the end of a row are decided by Cell::is_default alone, which tests the character and every component of the pen")
+    cd = "cell::Cell::is_default"
+    if cd not in w.bodies:
+        ctx.missing_anchor("Q1b", cd)
+        return
+    for fn in sorted(set(counters)):
+        for (pt, cdef, u) in E.closure_creations.get(fn, []):
+            loc_calls = sorted({cs.callee for cs in E.call_sites(cdef) if cs.local})
+            ctx.check(loc_calls == [cd], "Q1b", "%s:predicate" % fn, "%s decides droppable cells through %s; a painted blank (non-default pen) is content and must not be dropped: the predicate must be Cell::is_default" % (fn, loc_calls),
+                      loc=w.fn_loc(fn), sample={"fn": fn, "predicate_calls": loc_calls})
+    cell_fields = [f["name"] for f in w.facts.struct_fields("cell::Cell") or []]
+    rd = {p[1] for p in E.summaries[cd].R if p[0] == "arg1" and len(p) >= 2}
+    ctx.check(set(cell_fields) <= rd, "Q1b", cd, "Cell::is_default looks at %s of %s" % (sorted(rd), cell_fields), loc=w.fn_loc(cd), sample={"reads": sorted(rd)})
+    pdf = "pen::Pen::is_default"
+    if pdf in w.bodies:
+        pf = [f["name"] for f in w.facts.struct_fields("pen::Pen") or []]
+        prd = {p[1] for p in E.summaries[pdf].R if p[0] == "arg1" and len(p) >= 2}
+        ctx.check(set(pf) <= prd, "Q1b", pdf, "Pen::is_default looks at %s of the pen's components %s" % (sorted(prd), pf), loc=w.fn_loc(pdf), sample={"reads": sorted(prd)})
+    else:
+        ctx.missing_anchor("Q1b", pdf)
+    ctx.floor("Q1b", 3, "blank-predicate obligations")
